@@ -147,3 +147,29 @@ Definition auroc_ref (c : acfg) (samples : list col) : aout :=
   | _, S O => AScalar (auroc_spec (nth 0 (rows_of c samples) []))
   | _, _ => AVec (map auroc_spec (rows_of c samples))
   end.
+
+(* =====================================================================================
+   Repaired compute() (fixes/window-auroc-compute.patch), the "compute-fixed" variant:
+     if total_samples == 0: the empty window, as before (TorchScript error)
+     else: _binary_auroc_compute(inputs, targets, weights) on the WHOLE (num_tasks, L) buffers --
+           unfilled slots have weight 0 -- and [0] instead of .squeeze() for num_tasks = 1.
+   Everything else (update, merge_state, cursor handling per [variant]) is unchanged.
+   ===================================================================================== *)
+Definition acmp_fix (c : acfg) (s : ast) : aout :=
+  if Nat.eqb (a_tot s) 0 then AErr
+  else let a := auroc_kernel (rows_of c (a_buf s)) in
+       match aT c with S O => AScalar (hd 0 a) | _ => AVec a end.
+
+Definition wauroc_cfix (fixed : variant) : Metric :=
+  {| cfg := acfg; st := ast; batch := list col; out := aout;
+     init := ainit; valid := avalid; upd := aupd; mrg := amrg; cmp := acmp_fix;
+     prep := fun _ s => s;
+     save := fun _ s => if cur_saved fixed then s else a_with_cur 0 s;
+     load := fun _ tgt d => if cur_saved fixed then d else a_with_cur (a_cur tgt) d;
+     rst := fun c s => if cur_reset fixed then ainit c else a_with_cur (a_cur s) (ainit c) |}.
+Definition wauroc_cfix_codec (fixed : variant) : Codec (wauroc_cfix fixed) :=
+  Build_Codec (wauroc_cfix fixed) dec_acfg dec_ab a_enc_st a_enc_out.
+(* @model wauroc_cfix run_wauroc_cfix *)
+Definition run_wauroc_cfix := run_pool (wauroc_cfix V_code) (wauroc_cfix_codec V_code).
+(* @model wauroc_cfix_fixed run_wauroc_cfix_fixed *)
+Definition run_wauroc_cfix_fixed := run_pool (wauroc_cfix V_fixed) (wauroc_cfix_codec V_fixed).
